@@ -158,6 +158,32 @@ def run(ctx: Ctx):
                sorted(s_.split(" + ")) == ["1", "V", "shift"],
                f"{tag} uses U = {s_}; the builder's layout for order > 1 is V + shift + 1", rel, cand.lineno, sample=s_)
 
+    # the child-scan window: srange = <arange(E)>[:S] must be able to hold the largest fan-out. The builder's
+    # _infer_max_direct_descendants asserts S < U = V + shift + 1, shift <= 1, so S <= V + 1: the extent E must be >= V + 1
+    rdk = ReachingDefs(kern.node)
+    okw = None
+    for n in own_nodes(kern.node):
+        if isinstance(n, ast.Subscript) and isinstance(n.slice, ast.Slice) and n.slice.lower is None \
+                and n.slice.upper is not None and u(n.slice.upper) == "S" and isinstance(n.value, ast.Name):
+            for d in rdk.defs_of(n.value):
+                v = d.value
+                if isinstance(v, ast.Call) and call_name(v) == "torch.arange" and v.args:
+                    ext = nzk.poly(v.args[0])
+                    diff = padd(ext, nzk.poly(ast.parse("V + 1", mode="eval").body), -1)
+                    from sa.norm import const_of
+                    c = const_of(diff)
+                    okw = c is not None and c >= 0
+                    col.ob("G23", "S3", f"{rel}::{KERNEL}::child-window-extent>=V+1", okw,
+                           f"`{u(n)}` takes S entries from an index range of extent {pstr(ext)}; a node can have up to "
+                           f"V + 1 children (every vocabulary token plus an out-of-vocabulary start symbol), so the "
+                           f"window is silently truncated and the last child is never examined", rel, n.lineno,
+                           sample=dict(window=u(n), extent=pstr(ext)))
+    if okw is None:
+        raise AnalysisError("C06: the child-scan window (arange(...)[:S]) was not found in the kernel")
+    asserts = [u(n.test) for n in own_nodes(infer.node) if isinstance(n, ast.Assert)]
+    col.ob("G23", "S3", f"{W('_infer_max_direct_descendants')}::asserts-S<U", any(t.replace(" ", "") == "S<U" for t in asserts),
+           f"_infer_max_direct_descendants asserts {asserts}; the bound S < U justifies the kernel's window", rel, infer.line)
+
     # ---- S4 load_state_dict: every derived attribute and buffer is (re)assigned -----------------------
     regs = [c.args[0].value for c in own_calls(init.node) if isinstance(c.func, ast.Attribute)
             and c.func.attr == "register_buffer" and c.args and isinstance(c.args[0], ast.Constant)]
@@ -281,6 +307,7 @@ def _mutants():
         M("shift-differs", L, "shift = 0 if 0 <= sos < V else 1", "shift = 0 if 0 < sos < V else 1", "shift-definitions-agree"),
         M("arpa-drop-option", "_parsing.py", "return parse_arpa_lm(f, token2id, to_base_e, ftype, logger)",
           "return parse_arpa_lm(f, token2id, to_base_e, ftype)", "G6/S1"),
+        M("child-window-V", L, "vrange = torch.arange(V + 1, device=device, dtype=torch.long)", "vrange = torch.arange(V, device=device, dtype=torch.long)", "child-window-extent"),
         M("twin:reformat", L, "I, P = (O + G - U, O + G)\n        if N > 1:", "I = O + G - U\n        P = O + G\n        if N > 1:", "", twin=True),
     ]
 
